@@ -166,6 +166,11 @@ extern MPT_INTERFACE(metatype) *_mpt_iterator_factor(MPT_STRUCT(value) *val)
 			if (ret >= 0) {
 				++cont;
 			}
+			/* supplied factor must be positive like in text form */
+			if (cont >= 3 && fd.fact < DBL_MIN) {
+				errno = EINVAL;
+				return 0;
+			}
 			/* no factor supplied */
 			if (cont < 3) {
 				if (fd.base < DBL_MIN) {
